@@ -13,11 +13,14 @@
    c12 admits <send 0|1> <sync 0|1> <bound words…>
        → `yes` / `no`: `Bounds.admits` on a bound list written as words
          (`send sync static clone partialEq other`)
+   c12 intern <text>:<identifier> …   observations made on the real interner (numbers)
+       → `consistent <n>` / `inconsistent`: `Intern.consistent` (equal texts ↔ equal identifiers)
 -/
 import Driver.Util
 import RotoV.Model.Conc
 import RotoV.Model.ConcExec
 import RotoV.Model.ConcInstr
+import RotoV.Model.ConcIntern
 
 namespace Driver.C12
 open RotoV.Conc RotoV.Conc.Lir RotoV.Conc.Classify RotoV.Gen.C12Instr
@@ -241,6 +244,14 @@ def handle (args : List String) : String :=
       if (send == "0" || send == "1") && (sync == "0" || sync == "1") then
         if Bounds.admits bs ⟨send == "1", sync == "1"⟩ then "yes" else "no"
       else "bad-op"
+    | none => "bad-op"
+  | "intern" :: ps =>
+    let parse (w : String) : Option (Nat × Nat) :=
+      match w.splitOn ":" with
+      | [a, b] => do some ((← a.toNat?), (← b.toNat?))
+      | _ => none
+    match ps.mapM parse with
+    | some obs => if RotoV.Conc.Intern.consistent obs then s!"consistent {obs.length}" else "inconsistent"
     | none => "bad-op"
   | _ => "bad-op"
 
